@@ -6,6 +6,7 @@ import (
 	"os"
 	"os/exec"
 	"path/filepath"
+	"strconv"
 	"strings"
 	"sync/atomic"
 	"time"
@@ -132,15 +133,25 @@ func binFor(b builds, build string) string {
 	return ""
 }
 
+// searchOnce tries n seeded schedules (numbers off..off+n-1) of the record's workload in a
+// fresh process and reports the first violating one as a scripted record.
+func searchOnce(b builds, rec *proto.Record, n, off int) (proto.ProcResult, error) {
+	return replayWith(b, rec, "search", "-search", strconv.Itoa(n), "-search-offset", strconv.Itoa(off))
+}
+
 // replayOnce executes rec in a fresh process of its build.
 func replayOnce(b builds, rec *proto.Record, tag string) (proto.ProcResult, error) {
+	return replayWith(b, rec, tag)
+}
+
+func replayWith(b builds, rec *proto.Record, tag string, extra ...string) (proto.ProcResult, error) {
 	n := atomic.AddInt64(&procCounter, 1)
 	p := filepath.Join(scratch, "p")
 	os.MkdirAll(p, 0o755)
 	path := filepath.Join(p, fmt.Sprintf("rec.%d.%s.json", n, tag))
 	writeJSON(path, rec)
 	defer os.Remove(path)
-	args := []string{"replay", "-rec", path, "-build", rec.Build}
+	args := append([]string{"replay", "-rec", path, "-build", rec.Build}, extra...)
 	gmp := 1
 	if rec.Run.Policy.Kind == "free" || degradedMode {
 		args = append(args, "-free")
